@@ -28,8 +28,13 @@ def latlon_of(points, emb):
     return lat, lon
 
 
-def dataset(points, emb, shape="linear", ids=None, extra=None):
-    """points: list of (t, pos); ids default 1..n (TLA+ indices)."""
+def dataset(points, emb, shape="linear", ids=None, extra=None, qpole=None):
+    """points: list of (t, pos); ids default 1..n (TLA+ indices).  qpole (+1 / -1): the second pixel of every scan line of a
+    grid is a VALID point in quarantine near that pole (id 0; with the equator embedding it is >= 80 degrees of arc from
+    every ring position) instead of a NaN position."""
+    if shape == "grid2":
+        # the same grid with dimension names whose alphabetical order is NOT the array order
+        return dataset(points, emb, "grid", ids, extra, qpole).rename({"scnline": "scan", "scnpos": "pixel"})
     n = len(points)
     ids = np.arange(1, n + 1) if ids is None else np.asarray(ids)
     t = times_of(points)
@@ -46,9 +51,14 @@ def dataset(points, emb, shape="linear", ids=None, extra=None):
     if shape == "timedim":
         return xr.Dataset({"lat": ("time", lat), "lon": ("time", lon), "id": ("time", ids)}, coords={"time": t})
     if shape == "grid":
-        lat2 = np.column_stack([lat, np.full(n, np.nan)])
-        lon2 = np.column_stack([lon, np.full(n, np.nan)])
-        id2 = np.column_stack([ids, np.full(n, -9)])
+        if qpole is None:
+            lat2 = np.column_stack([lat, np.full(n, np.nan)])
+            lon2 = np.column_stack([lon, np.full(n, np.nan)])
+            id2 = np.column_stack([ids, np.full(n, -9)])
+        else:
+            lat2 = np.column_stack([lat, qpole * (88.0 + (np.arange(n) * 0.37) % 1.9)])
+            lon2 = np.column_stack([lon, (np.arange(n) * 47.0) % 360.0 - 180.0])
+            id2 = np.column_stack([ids, np.zeros(n, dtype=int)])
         return xr.Dataset({"time": ("scnline", t), "lat": (("scnline", "scnpos"), lat2),
                            "lon": (("scnline", "scnpos"), lon2), "id": (("scnline", "scnpos"), id2)},
                           coords={"scnline": np.arange(n) + 100, "scnpos": [0, 1]})
